@@ -74,7 +74,7 @@ static const char* k_kind[] = { "random", "sin", "empty" };
 static const char* k_type[] = { "u8", "u16", "i8", "i16", "f32", "u10", "u12", "u14" };
 
 static struct { unsigned long cases, sets, rejected_sets, starts, frames, bytes, binned_cases, clamped, maxshape, reconfigs,
-                runs, triggers, trigger_runs, pending_at_stop, restarts_checked, timebound_checked, failed_frame_calls; } C;
+                runs, triggers, trigger_runs, pending_at_stop, restarts_checked, timebound_checked, failed_frame_calls, ids_ahead_of_pacing; } C;
 static vset g_sigs;
 
 // ---- C17 ------------------------------------------------------------------------------------------------
@@ -257,9 +257,10 @@ static void* consumer_main(void* a)
         } else if (r->exposure_ms >= 2.0f) {
             // free running: the camera needs at least one exposure per generated frame
             double el_ms = (now_s() - r->t_start) * 1e3;
-            if ((double)id > 3.0 * el_ms / r->exposure_ms + 3.0)
-                violation("frame-count-not-restarted", "hardware_frame_id %lld only %.1f ms after start with %.1f ms exposure",
-                          (long long)id, el_ms, (double)r->exposure_ms);
+            // Pacing is not part of the property (a camera that generates frames faster than its exposure would
+            // not violate it), so an id far ahead of elapsed/exposure is only counted, not judged.  The exact
+            // restart check is the trigger-mode one above.
+            if ((double)id > 3.0 * el_ms / r->exposure_ms + 3.0) ++C.ids_ahead_of_pacing;
             ++C.timebound_checked;
         }
         if (vrng_chance(&g, 1, 6)) { struct timespec ts = { 0, (long)vrng_range(&g, 1000, 400000) }; nanosleep(&ts, 0); }
@@ -429,9 +430,9 @@ int main(int argc, char** argv)
     }
     printf("S {\"mode\":\"%s\",\"cases\":%lu,\"violations\":%lu,\"sets\":%lu,\"rejected_sets\":%lu,\"reconfigurations\":%lu,\"starts\":%lu,"
            "\"frames\":%lu,\"frame_bytes\":%lu,\"cases_with_binning\":%lu,\"clamped_requests\":%lu,\"max_shape_requests\":%lu,\"runs\":%lu,"
-           "\"triggers\":%lu,\"trigger_runs\":%lu,\"stops_with_pending_get_frame\":%lu,\"restart_checks\":%lu,\"timebound_checks\":%lu,\"failed_frame_calls\":%lu,\"distinct\":%zu}\n",
+           "\"triggers\":%lu,\"trigger_runs\":%lu,\"stops_with_pending_get_frame\":%lu,\"restart_checks\":%lu,\"timebound_checks\":%lu,\"failed_frame_calls\":%lu,\"ids_ahead_of_pacing_info\":%lu,\"distinct\":%zu}\n",
            mode, C.cases, g_nviol, C.sets, C.rejected_sets, C.reconfigs, C.starts, C.frames, C.bytes, C.binned_cases, C.clamped, C.maxshape,
-           C.runs, C.triggers, C.trigger_runs, C.pending_at_stop, C.restarts_checked, C.timebound_checked, C.failed_frame_calls, g_sigs.n);
+           C.runs, C.triggers, C.trigger_runs, C.pending_at_stop, C.restarts_checked, C.timebound_checked, C.failed_frame_calls, C.ids_ahead_of_pacing, g_sigs.n);
     const char* hp = getenv("VERIF_HASH_OUT");
     if (hp) vset_dump(&g_sigs, hp);
     fflush(stdout);
